@@ -63,14 +63,15 @@ def c08_docs(tier):
             docs.append(('<mos>%s%s</mos>' % (b, pre), cls))
     ops = ['REPLACE', 'DELETE', 'INSERT', 'SWAP', 'MOVE', 'BOGUS', None]
     for op in ops:
-        for tgt in (None, '', '<storyID>A</storyID>', '<storyID>A</storyID><itemID>1</itemID>', '<itemID>1</itemID>'):
-            for src in (None, '', '<storyID>B</storyID>', '<itemID>2</itemID>', '<story><storyID>N</storyID></story>', '<item><itemID>9</itemID></item>'):
+        for tgt in (None, '', '<storyID>A</storyID>', '<storyID>A</storyID><itemID>1</itemID>', '<itemID>1</itemID>', '<storyID>A</storyID><itemID/>'):
+            for src in (None, '', '<storyID>B</storyID>', '<itemID>2</itemID>', '<story><storyID>N</storyID></story>', '<item><itemID>9</itemID></item>',
+                        '<itemID/><itemID>3</itemID>'):
                 a = '' if op is None else ' operation="%s"' % op
                 t = '' if tgt is None else '<element_target>%s</element_target>' % tgt
                 s = '' if src is None else '<element_source>%s</element_source>' % src
                 doc = '<mos>%s<roElementAction%s><roID>R</roID>%s%s</roElementAction></mos>' % (pre, a, t, s)
-                ti = tgt is not None and '<itemID>' in tgt
-                si = src is not None and src.startswith('<itemID>')
+                ti = tgt is not None and '<itemID' in tgt
+                si = src is not None and src.startswith('<itemID')
                 exp = EA.get((op, ti, si)) if src is not None else None
                 docs.append((doc, exp or 'exc:UnknownMosFileType'))
     for junk in ('<a/>', '<mos><messageID>1</messageID></mos>', '<mos><unknown><roID>R</roID></unknown></mos>', '<html><body/></html>'):
@@ -134,6 +135,10 @@ def mk_msgs(spec, roid_mixed=False):
             out.append(msg('StoryMove', mid=mid, roid=roid, src='A', target='C')[0])
         elif kind == 'iteminsert':
             out.append(msg('ItemInsert', mid=mid, roid=roid, story='A', target='2', new=['n%d' % mid])[0])
+        elif kind == 'roreplace':
+            out.append(msg('RunningOrderReplace', mid=mid, roid=roid, new=['A', 'B', 'C', 'R%d' % mid])[0])
+        elif kind == 'readytoair':
+            out.append(msg('ReadyToAir', mid=mid, roid=roid)[0])
     return out
 
 
@@ -143,7 +148,8 @@ def c11_cases():
             for nother in (0, 1, 2):
                 for mixed in (False, True):
                     for allow in (False, True):
-                        spec = [('roCreate', 10 + i) for i in range(ncreate)] + [('append', 20 + i) for i in range(nother)] + \
+                        spec = [('roCreate', 10 + i) for i in range(ncreate)] + \
+                            [(('readytoair', 5), ('roreplace', 20))[i] for i in range(nother)] + \
                             [('roDelete', 90 + i) for i in range(ndelete)]
                         if mixed and len(spec) < 2:
                             continue
@@ -247,7 +253,7 @@ def hand_fold(docs, strict):
 
 
 def c09_sequences(tier):
-    kinds = ['append', 'bad', 'delete', 'move', 'iteminsert']
+    kinds = ['append', 'bad', 'delete', 'move', 'iteminsert', 'roreplace']
     L = 3 if tier == 'quick' else 4
     for n in range(0, L + 1):
         for seq in itertools.product(kinds, repeat=n):
@@ -371,6 +377,34 @@ def search_C10(tier, rng):
                 failures.append({'property': 'C10', 'fn': 'mosromgr.moscollection.MosCollection.from_strings', 'perm': list(perm), 'how': how,
                                  'what': '%s (permutation %s via %s)' % (what, list(perm), how), 'input_sha': _sha(json.dumps([list(perm), how])),
                                  'api': 'MosCollection.from_%s(permuted docs)' % how})
+    # from_s3: the listing order (byte order of the keys) is not the numeric message id order
+    from oracles3 import FakeS3
+    import mosromgr.utils.s3 as s3mod
+    saved = s3mod.s3
+    try:
+        objects = {}
+        for (kind, mid), d in sorted(zip(base, docs), key=lambda x: str(x[0][1])):
+            objects['prog/%d-%s.mos.xml' % (mid, kind)] = d.encode('utf-8')
+        s3mod.s3 = FakeS3(objects, 2)
+        n += 1
+        with warnings.catch_warnings():
+            warnings.simplefilter('ignore')
+            what = None
+            try:
+                mc = MosCollection.from_s3(bucket_name='bk', prefix='prog/', allow_incomplete=True)
+                ids = [r.message_id for r in mc.mos_readers]
+                mc.merge()
+                if ids != sorted(ids):
+                    what = 'from_s3 readers not in ascending numeric message id order: %s' % ids
+                elif (ids, str(mc)) != ref:
+                    what = 'from_s3 gives a different result from from_strings over the same contents'
+            except Exception as e:
+                what = 'from_s3 over keys listed in byte order failed: %s' % type(e).__name__
+        if what:
+            failures.append({'property': 'C10', 'fn': 'mosromgr.moscollection.MosCollection.from_s3', 'perm': sorted(objects), 'how': 's3',
+                             'what': what, 'input_sha': _sha('s3order'), 'api': 'MosCollection.from_s3 over a fake bucket'})
+    finally:
+        s3mod.s3 = saved
     # sorting MosFile objects
     objs = [MosFile.from_string(d) for d in docs]
     n += 1
